@@ -80,12 +80,15 @@ struct Shared {
   void run_cmd(const std::string& c);
 };
 
+// once the run has "crashed" (the guarded wild write) nothing more is logged: the model stops there too
 void rcvr::set_value() && noexcept {
+  if (sh->crashed) return;
   sh->log("fire", i, sh->now_ms());
   auto it = sh->hooks.find(i);
   if (it != sh->hooks.end()) for (auto& c : it->second) if (!sh->crashed) sh->run_cmd(c);
 }
 void rcvr::set_done() && noexcept {
+  if (sh->crashed) return;
   sh->log("done", i, sh->now_ms());
   auto it = sh->hooks.find(i);
   if (it != sh->hooks.end()) for (auto& c : it->second) if (!sh->crashed) sh->run_cmd(c);
@@ -128,7 +131,7 @@ void Shared::run_cmd(const std::string& c) {
   } else if (c[0] == 'r') {
     if (!real) dsched::action("enter");
     loop.run_until_empty();
-    if (!real) dsched::action("exit");
+    if (!real && !crashed) dsched::action("exit");
   }
 }
 
